@@ -122,6 +122,27 @@ Theorem C05_order_independent_sequential : forall shuffle o d timer pop,
 Proof. exact order_independent_seq. Qed.
 Print Assumptions C05_order_independent_sequential.
 
+(* apply_evaluation_results itself (public static method), for ARBITRARY result lists - invalid,
+   None, missing and foreign results included: it matches results to individuals by uid, and any
+   permutation of the results gives the same individuals, fitness and order *)
+Theorem C05_apply_results_spec : forall inds rs,
+  all_invalid inds -> NoDup (map fst (truthy_pairs rs)) ->
+  apply_evaluation_results inds rs = Ok (apply_spec inds rs).
+Proof. exact apply_results_spec. Qed.
+Print Assumptions C05_apply_results_spec.
+
+Theorem C05_apply_results_order_independent : forall inds rs rs',
+  all_invalid inds -> NoDup (map fst (truthy_pairs rs)) -> Permutation rs rs' ->
+  apply_evaluation_results inds rs' = apply_evaluation_results inds rs.
+Proof. exact apply_results_order_independent. Qed.
+Print Assumptions C05_apply_results_order_independent.
+
+Theorem C05_apply_in_scope_reflects : forall inds rs,
+  apply_in_scope inds rs = true <->
+  NoDup (map uid inds) /\ all_invalid inds /\ NoDup (map fst (truthy_pairs rs)).
+Proof. exact apply_in_scope_iff. Qed.
+Print Assumptions C05_apply_in_scope_reflects.
+
 (* sequential = parallel: with a limit that is never reached and no delegate both return the same
    individuals with the same fitness (as multisets; the parallel one lists them in reversed order) *)
 Theorem C05_sequential_parallel_same : forall o pop,
